@@ -153,7 +153,7 @@ def run_smtp_case(case):
     queue = VerdictQueue()
     tls = cfg.get('starttls')
     edge = SmtpEdge(None, queue, hostname='edge.example', validator_class=make_validators(),
-                    context=server_ctx() if tls else None)
+                    context=server_ctx() if tls else None, auth=([b'PLAIN', b'LOGIN'] if cfg.get('auth') else False))
     conns = []
 
     def creator(address):
@@ -164,7 +164,7 @@ def run_smtp_case(case):
 
     relay = StaticSmtpRelay('peer.example', 25, socket_creator=creator, context=client_ctx(), ehlo_as='relay.example',
                             idle_timeout=(5 if len(case['envelopes']) > 1 else None),
-                            binary_encoder=None)
+                            binary_encoder=None, credentials=(('relayuser', 'relaypass') if cfg.get('auth') == 'use' else None))
     out = []
     desc = repr({'server': cfg, 'envelopes': [(e['sender'], e['rcpts']) for e in case['envelopes']]})
     try:
@@ -222,6 +222,9 @@ def run_smtp_case(case):
                     break
                 if got.client.get('name') != 'relay.example':
                     out.append(('C06:ehlo-identity', '%s: %r' % (desc, got.client)))
+                    break
+                if cfg.get('auth') == 'use' and tuple(got.client.get('auth') or ()) != ('relayuser', 'relayuser'):
+                    out.append(('C06:auth-identity', '%s: envelope.client auth=%r' % (desc, got.client.get('auth'))))
                     break
             else:
                 if len(queue.envelopes) != captured:
@@ -422,7 +425,8 @@ def envelope_spec(draw, utf8, eightbit_ok):
 def smtp_case(draw):
     drop = draw(st.lists(st.sampled_from(['PIPELINING', '8BITMIME', 'SMTPUTF8', 'ENHANCEDSTATUSCODES']), max_size=3, unique=True))
     no_ehlo = draw(st.integers(0, 7)) == 0
-    cfg = {'drop': drop, 'no_ehlo': no_ehlo, 'starttls': draw(st.integers(0, 3)) == 0 and not no_ehlo}
+    cfg = {'drop': drop, 'no_ehlo': no_ehlo, 'starttls': draw(st.integers(0, 3)) == 0 and not no_ehlo,
+           'auth': (draw(st.sampled_from([None, None, 'advertise', 'use'])) if not no_ehlo else None)}
     utf8 = 'SMTPUTF8' not in drop and not no_ehlo
     eight = '8BITMIME' not in drop and not no_ehlo
     n = draw(st.sampled_from([1, 1, 2, 3]))
@@ -471,7 +475,7 @@ def run_shard(ctx):
     def one(case):
         f, _ = RUNNERS[case['family']](case)
         ctx.record(repr(case), nontrivial(case), labels=['leg=' + case['family']], case=case, failures=f)
-    hyp.drive(ctx, smtp_case(), one, ctx.n(600, 10000))
+    hyp.drive(ctx, smtp_case(), one, ctx.n(1200, 15000))
     hyp.drive(ctx, http_case(), one, ctx.n(200, 3000), salt=1)
     hyp.drive(ctx, lmtp_case(), one, ctx.n(300, 5000), salt=2)
     hyp.drive(ctx, _ext_case, one, ctx.n(300, 5000), salt=3)
